@@ -653,7 +653,11 @@ impl ColorTransform {
                     }
                 }
             }
-            *ret.lock().unwrap() = Ok(num_channels);
+            // Never overwrite an error reported by another chunk with this chunk's success.
+            let mut ret = ret.lock().unwrap();
+            if ret.is_ok() {
+                *ret = Ok(num_channels);
+            }
         });
         ret.into_inner().unwrap()
     }
